@@ -228,6 +228,7 @@ TRANSFERS = {   # module -> (classes it needs, theorems)
     'TransferBlocks': (['Blocks', 'Types'], ['counted_ok', 'src_gnss_items', 'src_esfla_items', 'src_esfstatus_items', 'src_monver_items']),
     'TransferFactory': (['Factory'], ['src_registry_refines', 'src_last_registration_wins', 'src_registration_local', 'src_unregistered']),
     'TransferGpsd': (['Gpsd'], ['src_chunk_never_raises', 'src_decision_table', 'src_ready_after', 'src_requested_kept']),
+    'TransferKeyStr': (['KeyStr', 'CfgKeyData'], ['src_keystr_total', 'src_keystr_invalid', 'src_decoded_item_renders']),
     'TransferGpsdTx': (['GpsdTx'], ['src_command_carries_bytes', 'src_command_length', 'src_header_shape', 'src_success_only_if', 'src_success_if']),
     'TransferServer': (['Server', 'UbxParser'], ['src_set_returns_bounded', 'src_set_mga_returns_bounded', 'src_poll_returns_bounded', 'src_set_result',
                                                  'src_poll_result', 'src_set_kth', 'src_set_like_fresh', 'src_poll_like_fresh', 'src_poll_all_same']),
